@@ -2,7 +2,7 @@
 # seedconfirm.sh <property-id> <k> — confirm a sub-agent's seeded change /tmp/wt-<id>/out/<k> in a scratch worktree of its own (/tmp/wtc-<id>-<k>, removed afterwards):
 # the patch applies on a clean checkout, the library builds, the repository's own test suite passes, and the
 # demonstration behaves differently on the changed and the unchanged tree.  Writes <out>/confirm.txt.
-ID=$1; K=$2; OUT=/tmp/wt-$ID/out/$K; WT=/tmp/wtc-$ID-$K
+ID=$1; K=$2; OUT=${SEEDROOT:-/tmp/wt}-$ID/out/$K; WT=/tmp/wtc-$ID-$K
 test -f "$OUT/patch.diff" || exit 2
 git -C /repo worktree remove --force "$WT" >/dev/null 2>&1
 git -C /repo worktree add --detach "$WT" HEAD >/dev/null 2>&1 || exit 2
